@@ -180,6 +180,22 @@ def h_small(name):
     return Harness('C16.' + name, 'C16', parts, enforce=name, ignore=IGNORE)
 
 
+def h_mul_by_sign():
+    """mul_by_sign(x, y) = sign(x) * y, the chain-rule factor of |x|: 0 when y is 0; a number for finite x != 0 (that it is exactly +-y needs the
+    double division x / |x| = +-1, which no installed back end decides: not claimed); and NaN when x is 0 and
+    y is not - |x| has no derivative at 0, the NaN is what makes check_result report the error instead of handing a number to AMPL."""
+    parts = ['#include "mp_shim.h"\n#include <math.h>\nint vp_one;\n',
+             Fn(GSL, r'static double mul_by_sign\(double x, double y\)', 'double mul_by_sign(double x, double y)',
+                contract='__CPROVER_requires(x == x && y == y) '
+                         '__CPROVER_ensures(y == 0.0 ==> __CPROVER_return_value == 0.0) '
+                         '__CPROVER_ensures((x == 0.0 && y != 0.0) ==> __CPROVER_return_value != __CPROVER_return_value) '
+                         '__CPROVER_ensures((x != 0.0 && x > -__builtin_inf() && x < __builtin_inf() && y > -__builtin_inf() && y < __builtin_inf()) ==> __CPROVER_return_value == __CPROVER_return_value) __CPROVER_assigns()',
+                label='mul_by_sign', nmatches=1),
+             'void harness(void) { vp_one = 1; mul_by_sign(nondet_double(), nondet_double()); VP_REACH("normal return"); }\n']
+    return Harness('C16.mul_by_sign', 'C16', parts, enforce='mul_by_sign', timeout=600,
+                   note='the derivative factor of |x|: no value at the kink (NaN => error through check_result)')
+
+
 def h_bessel():
     parts = [pre(), 'static const char *const DERIVS_NOT_PROVIDED = "derivatives are not provided";\nenum { DERIV_INT_MIN = 1 };\n'] + \
         small_parts(['check_const_arg', 'check_int_arg', 'check_deriv_arg']) + [
@@ -358,7 +374,7 @@ def make_replay(name, n):
 
 
 def harnesses(tier, seed):
-    hs = [h_format_eval_error(), h_check_args(), h_check_result(), h_bessel()] + [h_small(n) for n in SMALL]
+    hs = [h_format_eval_error(), h_check_args(), h_check_result(), h_bessel(), h_mul_by_sign()] + [h_small(n) for n in SMALL]
     text, info = binding_section()
     section = Section(text, info)
     tab = bindings_table()
